@@ -219,7 +219,7 @@ def run_session(job):
 
 
 def run_mode(ctx, mode):
-    cfgs = ["ViewIndex_t.cfg"] if ctx.thorough else ["ViewIndex_q.cfg", "ViewIndex_q2.cfg"]
+    cfgs = ["ViewIndex_t.cfg", "ViewIndex_q3.cfg"] if ctx.thorough else ["ViewIndex_q.cfg", "ViewIndex_q2.cfg", "ViewIndex_q3.cfg"]
     jobs = []
     flagdir = os.path.join(ctx.scratch, "timeouts")
     os.makedirs(flagdir, exist_ok=True)
